@@ -20,7 +20,10 @@ RULE = ("exhaustive: every symbol of every DNA encoding (ASCII: the ten letters 
         "compositions rc.rc, translate.rc, ... with replace / same-column replace / row selection / split-and-concatenate in "
         "between, every stage read after the last step; genomic_sequence[intervals] with DERIVED interval objects (clip, "
         "index list/array/mask/slice, sorted, replace, concatenate; windows around stranded locations and interval midpoints; "
-        "read from a BED file) judged on the intervals the derived object must denote")
+        "read from a BED file) judged on the intervals the derived object must denote; "
+        "equal-but-not-identical inputs (unpickled, deep / shallow copy, freshly constructed encoding object equal to the "
+        "predefined one) for rc / strand / translate; an indexed FASTA opened by a relative name, the working directory changed "
+        "(to one holding a same-named file with other letters) before the first extraction")
 EXHAUSTIVE = {"quick": False, "thorough": False}
 MODEL_OPS = {"rc", "strand", "translate", "transcripts", "pipe", "strand_gi"}
 CASE_TIMEOUT_S = 60
@@ -454,6 +457,35 @@ def _make_input(c, E):
     return as_encoded_array([_text(r) for r in rows], E)
 
 
+def _clone(x, how, E=None):
+    """an EQUAL but not identical input: what a worker process receives (pickle), a deep / shallow copy, or the same codes
+    wrapped with a freshly constructed encoding object equal to the predefined one"""
+    import copy
+    import pickle
+    bnp, EncodedArray, EncodedRaggedArray, as_encoded_array, Err = _bnp()
+    if how == "pickle":
+        return pickle.loads(pickle.dumps(x))
+    if how == "deepcopy":
+        return copy.deepcopy(x)
+    if how == "copy":
+        return copy.copy(x)
+    if how == "fresh":
+        from bionumpy.encodings import BaseEncoding, AlphabetEncoding
+
+        def fresh_enc(enc):
+            return type(BaseEncoding)() if enc == BaseEncoding else AlphabetEncoding("".join(enc.get_alphabet()))
+
+        def rewrap(a):
+            if isinstance(a, EncodedRaggedArray):
+                flat = a.ravel()
+                return EncodedRaggedArray(EncodedArray(np.array(flat.raw()), fresh_enc(flat.encoding)), np.array(a.lengths))
+            return EncodedArray(np.array(a.raw()), fresh_enc(a.encoding))
+        if hasattr(x, "sequence"):
+            return bnp.replace(x, sequence=rewrap(x.sequence))
+        return rewrap(x)
+    raise ValueError(how)
+
+
 def _apply_view(base, v):
     """a FRESH, not yet materialised view of `base` selecting exactly the case's rows"""
     k = v["kind"]
@@ -537,6 +569,8 @@ def _call(c):
             from bionumpy.datatypes import SequenceEntry
             seqs = as_encoded_array([_text(r) for r in c["rows"]], E)
             e = SequenceEntry([f"s{i}" for i in range(n)], seqs)
+            if "clone" in c:
+                e = _clone(e, c["clone"])
             r = get_reverse_complement(e)
 
             def canon_entry(o):
@@ -546,7 +580,10 @@ def _call(c):
                 return {"rows": rows, "enc_same": bool(enc == E)}
             return r, canon_entry
         else:
-            r = get_reverse_complement(_make_input(c, E))
+            x = _make_input(c, E)
+            if "clone" in c:
+                x = _clone(x, c["clone"])
+            r = get_reverse_complement(x)
 
         def canon_rc(o):
             rows, enc = _rows_out(o, E)
@@ -583,7 +620,10 @@ def _call(c):
         via = c["via"]
         if via == "dna":
             from bionumpy.sequence.dna import get_strand_specific_sequences
-            r = get_strand_specific_sequences(as_encoded_array(_text(c["seqs"][0]), E), bed)
+            x = as_encoded_array(_text(c["seqs"][0]), E)
+            if "clone" in c:
+                x = _clone(x, c["clone"])
+            r = get_strand_specific_sequences(x, bed)
         elif via == "plain":
             from bionumpy.sequence.dna import get_sequences
             r = get_sequences(as_encoded_array(_text(c["seqs"][0]), E), bed)
@@ -594,6 +634,23 @@ def _call(c):
             if "alive" in c:       # a second object of the same kind, with other sequences under the same names, made first ...
                 other = GenomicSequence.from_dict({n: _text(s) for n, s in zip(names, c["alive"])}) if backend != "fasta" \
                     else _fasta_genome(names, c["alive"], c.get("width", 60))[0]
+            if backend == "fasta" and "relative" in c:
+                import os
+                cwd0 = os.getcwd()
+                try:
+                    gs, genome = _fasta_genome(names, c["seqs"], c.get("width", 60), relative=c["relative"])
+                    if c.get("entry") == "getitem":
+                        r = gs[genome.get_intervals(bed, stranded=(via == "genomic"))]
+                    else:
+                        r = gs.extract_intervals(bed, stranded=(via == "genomic"))
+                    r = r.copy() if hasattr(r, "copy") else r
+                finally:
+                    os.chdir(cwd0)
+
+                def canon_rel(o):
+                    rows, enc = _rows_out(o, E)
+                    return {"rows": rows, "enc_same": bool(enc == E)}
+                return r, canon_rel
             if backend == "fasta":
                 gs, genome = _fasta_genome(names, c["seqs"], c.get("width", 60))
             else:
@@ -643,7 +700,10 @@ def _call(c):
         elif via.startswith("enc:"):
             r = translate_dna_to_protein(as_encoded_array(texts, _encs()[via[4:]]))
         elif via == "ragged":
-            r = translate_dna_to_protein(as_encoded_array(texts))
+            x = as_encoded_array(texts)
+            if "clone" in c:
+                x = _clone(x, c["clone"])
+            r = translate_dna_to_protein(x)
         else:
             r = translate_dna_to_protein(texts)
         return r, (lambda o: {"rows": _rows_out(o, None)[0]})
@@ -953,18 +1013,37 @@ def _tmpdir():
 _FA_N = [0]
 
 
-def _fasta_genome(names, seqs, width):
-    """GenomicSequence over an indexed FASTA file (second backend), and its Genome"""
-    import os
-    import bionumpy as bnp
-    _FA_N[0] += 1
-    path = os.path.join(_tmpdir(), f"g{os.getpid()}_{_FA_N[0]}.fa")
+def _write_fasta(path, names, seqs, width):
     with open(path, "w") as fh:
         for n, s in zip(names, seqs):
             t = _text(s)
             fh.write(f">{n}\n")
             for i in range(0, len(t), width):
                 fh.write(t[i:i + width] + "\n")
+
+
+def _fasta_genome(names, seqs, width, relative=None):
+    """GenomicSequence over an indexed FASTA file (second backend), and its Genome.
+    relative = other sequences (same names and lengths): the file is opened by a RELATIVE name from inside its directory and
+    the process then moves to another directory that holds a file of the same name with the other sequences (per-sample
+    directories); the caller restores the working directory after the extraction"""
+    import os
+    import bionumpy as bnp
+    _FA_N[0] += 1
+    if relative is not None:
+        da = os.path.join(_tmpdir(), f"rel{os.getpid()}_{_FA_N[0]}_a")
+        db = os.path.join(_tmpdir(), f"rel{os.getpid()}_{_FA_N[0]}_b")
+        os.makedirs(da)
+        os.makedirs(db)
+        _write_fasta(os.path.join(da, "consensus.fa"), names, seqs, width)
+        _write_fasta(os.path.join(db, "consensus.fa"), names, relative, width)
+        os.chdir(da)
+        genome = bnp.Genome.from_file("consensus.fa")
+        gs = genome.read_sequence()
+        os.chdir(db)
+        return gs, genome
+    path = os.path.join(_tmpdir(), f"g{os.getpid()}_{_FA_N[0]}.fa")
+    _write_fasta(path, names, seqs, width)
     genome = bnp.Genome.from_file(path)
     gs = genome.read_sequence()
     return gs, genome
@@ -1364,6 +1443,21 @@ def cases(tier, rng):
     yield from _pipes(rng, 3000 if big else 400)
     yield from _derived(rng, 3000 if big else 400)
     yield from _outside(rng, 300 if big else 40)
+    # 0a'. equal-but-not-identical inputs: unpickled (a worker's argument), deep / shallow copies, a freshly made encoding object
+    for c in _small_calls(rng, 4000 if big else 700):
+        hows = ["deepcopy", "copy", "fresh"]
+        if c["op"] == "rc" and c.get("shape") in ("ragged", "entry", "flat"):
+            if c["shape"] == "ragged":
+                hows.append("pickle")        # flat arrays and tables cannot be pickled at all (not this property's business)
+            yield dict(c, clone=rng.choice(hows))
+        elif c["op"] == "translate" and c.get("via") == "ragged":
+            yield dict(c, clone=rng.choice(hows + ["pickle"]))
+        elif c["op"] == "strand" and c["via"] == "dna":
+            yield dict(c, clone=rng.choice(hows))
+    for enc in ENC_NAMES:
+        for b in _alpha(enc):
+            for how in ("pickle", "deepcopy", "fresh"):
+                yield {"op": "rc", "enc": enc, "rows": [[b], []], "shape": "ragged", "clone": how}
     # 0b. fresh, not yet materialised views as inputs: ragged sequence arrays and interval tables
     for c in _small_calls(rng, 4000 if big else 600):
         if c["op"] == "rc" and c.get("shape") in ("ragged", "entry", "str"):
@@ -1512,6 +1606,21 @@ def cases(tier, rng):
                     yield {"op": "strand", "enc": enc, "via": rng.choice(["genomic", "genomic", "unstranded"]), "seqs": ss, "ivs": ivs,
                            "backend": "fasta", "width": rng.choice([1, 3, 4, 7, 60]),
                            **({"entry": "getitem"} if rng.random() < 0.5 else {})}
+    # 4b2''. the indexed FASTA was opened by a relative name and the process changed directory before the first extraction
+    #        (the new directory holds a file of the same name, same contigs, other letters)
+    A5r = _alpha("ACGTN")
+    for _ in range(60 if big else 12):
+        nseq = rng.choice([1, 2, 3])
+        ss = [[rng.choice(A5r) for _ in range(rng.choice([3, 6, 12, 20]))] for _ in range(nseq)]
+        other = [[rng.choice(A5r) for _ in range(len(x))] for x in ss]
+        ivs = []
+        for _ in range(rng.choice([1, 2, 3, 5])):
+            ch = rng.randrange(nseq)
+            a = rng.randrange(len(ss[ch]) + 1)
+            ivs.append([ch, a, rng.randrange(a, len(ss[ch]) + 1), rng.choice([43, 45])])
+        yield {"op": "strand", "enc": "ACGTN", "via": rng.choice(["genomic", "genomic", "unstranded"]), "seqs": ss, "ivs": ivs,
+               "backend": "fasta", "width": rng.choice([3, 7, 60]), "relative": other,
+               **({"entry": "getitem"} if rng.random() < 0.5 else {})}
     # 4b2'. the genome context orders / names the chromosomes differently from the sequence container
     A5c = _alpha("ACGTN")
     pool = ["chr1", "chr10", "chr2", "chrX", "chr11", "chrM", "1", "10", "2"]
@@ -1670,6 +1779,14 @@ def finding_key(c, got, exp):
         plain = {k: v for k, v in c.items() if k != "view"}
         if agree(plain, impl(plain), exp):
             return f"view:{op}:wrong-on-fresh-{c['view']['kind']}-view"
+    if "relative" in c:
+        plain = {k: v for k, v in c.items() if k != "relative"}
+        if agree(plain, impl(plain), exp):
+            return "strand:indexed-fasta:relative-path-then-chdir-before-first-extraction"
+    if "clone" in c:
+        plain = {k: v for k, v in c.items() if k != "clone"}
+        if agree(plain, impl(plain), exp):
+            return f"clone:{op}:wrong-on-an-equal-copy-of-the-input:{c['clone']}"
     if op == "pipe":
         kind = "lazy-table" if c["carrier"] in LAZY_CARRIERS else "array" if c["carrier"] == "ragged" else "table"
         return f"pipe:{kind}:" + "-".join(st[0] for st in c["steps"])
